@@ -109,4 +109,42 @@ keys = set(acc.violations)
 assert keys == {"toy/wrong/history-dependent"}, keys
 assert acc.violations["toy/wrong/history-dependent"]["count"] == 2       # 1->11 and 11->1
 assert seqexplore.replay(op, {"seq": [["dbl", {"x": 1}], ["dbl", {"x": 11}]]}) and CACHE.clear() is None
+# ---- long history: a ring of 4 entries whose index map is not shifted on eviction (stale after wrap)
+RING, POS = [], {}
+def ring_op(kind, case):
+    x = case["x"]
+    if x in POS and POS[x] < len(RING):
+        got = RING[POS[x]]
+    else:
+        if len(RING) >= 4:
+            del RING[0]                         # positions remembered in POS are now off by one
+        RING.append(x * 3)
+        POS[x] = len(RING) - 1
+        got = x * 3
+    return [] if got == x * 3 else [("toy/ring", f"{x} -> {got}")]
+acc = Acc({"name": "toy-long"})
+seqexplore.long_history(acc, [("r", {"x": i}) for i in range(1, 12)], ring_op, d)
+assert set(acc.violations) == {"toy/ring/history-dependent"}, set(acc.violations)
+acc2 = Acc({"name": "toy-short"})
+seqexplore.explore(acc2, [("r", {"x": i}) for i in range(1, 4)], ring_op, 3, d)
+assert not acc2.violations                      # three calls never wrap the ring: only the long history sees it
+
+# ---- E6: a table built in place is left half-built by an interruption; later calls are wrong
+src3 = '''
+TABLE = []
+def lookup(i):
+    if not TABLE:
+        for j in range(8):
+            TABLE.append(j * j)
+    return TABLE[i] if i < len(TABLE) else -1
+'''
+path3 = os.path.join(d, "toy_table.py"); open(path3, "w").write(src3)
+spec = importlib.util.spec_from_file_location("toy_table", path3); toy3 = importlib.util.module_from_spec(spec); spec.loader.exec_module(toy3)
+def tab_op(kind, case):
+    g = toy3.lookup(case["i"])
+    return [] if g == case["i"] ** 2 else [("toy/table", f"lookup({case['i']}) = {g}")]
+acc = Acc({"name": "toy-intr"})
+npts = seqexplore.interrupted(acc, ("t", {"i": 1}), [("t", {"i": 7}), ("t", {"i": 2})], tab_op, (path3,), d, max_hits=3)
+assert npts >= 5 and set(acc.violations) == {"toy/table/after-interrupted-call"}, (npts, set(acc.violations))
+case = acc.violations["toy/table/after-interrupted-call"]["first"][0]["case"] if "first" in acc.violations["toy/table/after-interrupted-call"] else None
 print("engines ok")
